@@ -281,7 +281,26 @@ def run_case(ctx, i, rng):
                     # further, and the remote name is not hidden
                     wren = whole_renames(sc)
                     base_ = [o for o in w.occs if o.file == occ.file and o.line == occ.line and o.col < occ.col and o.ent.tdef is not None] if occ.ctx in ("comp-ref", "bind-ref") else []
-                    if outcome == "null" and any(o.name.lower() in {l.lower() for l, r_, u_ in wren} for o in base_):
+                    wl_ = {l.lower() for l, r_, u_ in wren}
+                    # ... and ONLY-aliases of those aliases (`only: x => alias`), transitively
+                    grew = True
+                    while grew:
+                        grew = False
+                        for s2_ in list(sc.chain()) + use_closure(sc) + [m_ for m_ in w.mods]:
+                            for u2_ in s2_.uses:
+                                for l2_, r2_ in (u2_.only or []):
+                                    if r2_.lower() in wl_ and l2_.lower() not in wl_:
+                                        wl_.add(l2_.lower())
+                                        grew = True
+
+                    def via_alias(t_):
+                        # the type, or one of its ancestors, names its parent by a whole-module rename alias
+                        while t_ is not None:
+                            if (getattr(t_, "parent_name", None) or "").lower() in wl_:
+                                return True
+                            t_ = t_.parent
+                        return False
+                    if outcome == "null" and any(o.name.lower() in wl_ or (getattr(o.ent, "tname", None) or "").lower() in wl_ or via_alias(o.ent.tdef) for o in base_):
                         # member of an object that is itself only visible under a whole-module rename alias
                         key = "use-tree:rename-without-only:alias-not-visible-through-other-modules"
                     elif outcome == "null" and (occ.name.lower() in {l.lower() for l, r_, u_ in wren}
